@@ -31,7 +31,7 @@ BUDGET = {'quick': (30000, 55), 'thorough': (2_000_000, 600)}
 COMPONENTS = dict(common.COMPONENTS, real=common.COMPONENTS['real'] + [
     'plumpy.workchains (WorkChain._do_step, to_context, Waiting with awaitables, steppers)', 'Process.launch (children)'])
 ASSUMPTIONS = ['bare futures are completed with a value or an exception, not cancelled (outside the stated mix)', 'FIFO ready queue']
-EXPECTED_COUNTERS = ['probe:all_items_already_complete', 'probe:child_launched_in_earlier_step', 'items:1', 'items:2', 'items:3', 'items:4', 'probe:child_killed', 'probe:future_failed', 'probe:child_raised',
+EXPECTED_COUNTERS = ['probe:same_key_twice_in_one_step', 'probe:paused_around_completions', 'shape:if_last', 'shape:while_last', 'shape:nested_if', 'probe:all_items_already_complete', 'probe:child_launched_in_earlier_step', 'items:1', 'items:2', 'items:3', 'items:4', 'probe:child_killed', 'probe:future_failed', 'probe:child_raised',
                      'probe:reassigned_key', 'probe:completed_before_waiting', 'via:ret', 'via:call', 'via:both', 'end:finished',
                      'end:excepted']
 _sys_cache = {}
